@@ -465,7 +465,7 @@ class NullWalk(object):
                         # no test of (this value of) E between its definition and the loop that excludes the null chunk
                         tested = False
                         d_at_use = set(id(q[1]) for q in rd.at(info[1]["i"], var_id(root)))
-                        for cn, pol in f.guard_conds(header):
+                        for cn, pol in list(f.guard_conds(header)) + list(f.guard_conds(f.nblock[info[1]["i"]])):
                             c = f.nodes.get(cn) if cn is not None else None
                             if c is None or c["k"] != "call" or "o" not in c or not isinstance(pol, bool):
                                 continue
